@@ -32,18 +32,32 @@ leaves behind (`Res.fail m`, `m.trk`).  Theorems (all grammars, rules, nodes, in
   a cursor of this input standing at the reported position, under positive polarity, and that run
   FAILED; every rule listed as unexpected was so run under negative polarity and SUCCEEDED (rule `0`
   = EOI may instead be justified by the end-of-input test of the full-parse wrapper).
-  `_partial`: the full statement of DESIGN.md (`C10_expected` / `C10_unexpected`) also says that the
-  justifying state is one the failing run actually passed through (same stack, same `INHERITED`) and
-  that the attempt was a leaf (no child rule attempt).  Here the state is existentially quantified:
-  its cursor is tied to the run's input (reachable from the entry cursor, at the reported offset),
-  its polarity is the one the tracker had, but its stack/fuel/`INHERITED` are not tied to the trace
-  (that needs an instrumented interpreter carrying a ghost log; not done).
+  `_partial`: the state is existentially quantified; superseded by the next item (kept).
+* `C10_expected`, `C10_unexpected` (+ `_check`, `_partial_entry`, `_check_partial_entry` versions) — the
+  full statement of DESIGN.md, over the event log of the run (`Lemmas/TrackerTrace.lean`:
+  `tryParseEvs g uni n r i` = the calls `parse g uni n' inh' (.ref x f) j mj` of framed rules the run
+  makes, in order, each with the fuel, `INHERITED` value, cursor, stack and tracker — rule stack
+  included — it was made with).  Every rule `x` listed as expected under the upper rule `k` has an
+  event IN THAT LOG: a call of `x` at a cursor standing at the reported position, positive polarity,
+  `get_entry` key `k`, leaf (the call made no call of a framed rule on its tracker: `LeafEv`), and that
+  very call FAILED; unexpected: negative polarity, SUCCEEDED.  Rule `0` (EOI) may instead be
+  justified by the end-of-input test of the wrapper at the cursor where the run made it (`eoiAt`).
+  The events of the check-only entry points are stated on the parse path (`check = parse.forget`,
+  C03: same states).  `C10_leaf_flag`: the `has_children` flag the code consults is set exactly when
+  the log of the body is non-empty.
 * `C10_det` — the report is a function of (grammar, rule, input): any two fuels that give an answer
   give the same answer (with the same tracker); every entry starts from the fresh `M.init`.
-* "rendering never panics" (`collect_to_message`: `line_col`, `line_of`, `nth`, slicing) is the
-  C12 text model and is not covered here beyond `C10_location_valid`.
+* `C10_render`, `C10_render_no_panic` — rendering: for the report of a failing run of any of the four
+  entry points, `Tracker::collect` / `collect_to_message` (`Model/Message.lean`: `line_col`, `line_of`,
+  `char_indices().nth`, the slice `&line_string[..index]`, `Position::new`) do not panic; the message
+  starts with the text of the line up to the reported column followed by `^---`, the error's
+  line/column are (1 + LFs before, 1 + characters since the last LF).
+  `C10_render_needs_boundary`: off a boundary `collect_to_message` does panic (non-vacuity of the
+  hypothesis the bounds theorems discharge).
 -/
 import PestTyped.Lemmas.TrackerLemmas
+import PestTyped.Lemmas.TrackerTrace
+import PestTyped.Lemmas.MessageLemmas
 import PestTyped.Lemmas.Mono
 import PestTyped.Props.C03
 namespace PestTyped
@@ -360,6 +374,186 @@ theorem C10_truthful_partial_entry (g : NodeGrammar) (uni : Uni) (n : Nat) (r : 
   unfold tryParsePartial at h
   rw [h] at this; exact this
 
+/-! ### truthful, over the event log of the run -/
+
+/-- What `C10_expected` / `C10_unexpected` say of one listed rule `x` (key `k`, position `pos`): an event
+of the log `L` that is a call of `x` at `pos`, reachable from `b`, under polarity `pol`, with
+`get_entry` key `k`, a leaf, whose verdict is `succ`. -/
+def C10Event (g : NodeGrammar) (uni : Uni) (b : Inp) (L : List Ev) (k : Option RuleId) (x : RuleId) (pos : Nat)
+    (succ pol : Bool) : Prop :=
+  ∃ ev ∈ L, ev.r = x ∧ ev.i.pos = pos ∧ b.Adv ev.i ∧ ev.m.trk.positive = pol ∧ ev.m.trk.upper pos = k ∧
+    LeafEv g uni ev ∧
+    (if succ then ∃ j' m' v, parse g uni ev.n ev.inh (.ref ev.r ev.f) ev.i ev.m = .ok j' m' v
+     else ∃ m', parse g uni ev.n ev.inh (.ref ev.r ev.f) ev.i ev.m = .fail m')
+
+theorem evJ_c10Event {g : NodeGrammar} {uni : Uni} {b : Inp} {L : List Ev} {k : Option RuleId} {x : RuleId}
+    {pos : Nat} {succ pol : Bool} (h : EvJ g uni b L k x pos succ pol) : C10Event g uni b L k x pos succ pol := by
+  obtain ⟨ev, hm, h1, h2, h3, h4, h5, h6, hv⟩ := h
+  refine ⟨ev, hm, h1, h2, h3, h4, h5, h6, ?_⟩
+  cases hr : parse g uni ev.n ev.inh (.ref ev.r ev.f) ev.i ev.m with
+  | oof => rw [hr] at hv; exact hv.elim
+  | fail m' =>
+    rw [hr] at hv
+    have : succ = false := hv
+    subst this; exact ⟨m', rfl⟩
+  | ok j' m' v =>
+    rw [hr] at hv
+    have : succ = true := hv
+    subst this; exact ⟨j', m', v, rfl⟩
+
+/-- `C10_expected` (DESIGN.md): `try_parse` fails with report `m.trk`; a rule `x` listed as expected under
+the upper rule `k` has an event in the log of THIS run (`tryParseEvs g uni n r i`): a call
+`parse g uni ev.n ev.inh (.ref x ev.f) ev.i ev.m` made by the run — with that fuel, `INHERITED` value,
+cursor, stack `ev.m.stk` and tracker `ev.m.trk` —, at the reported position, under positive polarity,
+below the upper rule `k`, a leaf (no child rule attempt), and that call failed.  For rule `0` (EOI) the
+event may be the end-of-input test of the wrapper, at the cursor where the run made it. -/
+theorem C10_expected (g : NodeGrammar) (uni : Uni) (n : Nat) (r : RuleId) (i : Inp) (m : M)
+    (h : tryParse g uni n r i = .fail m) (k : Option RuleId) (e : Tracked) (x : RuleId)
+    (hm : (k, e) ∈ m.trk.attempts) (hx : x ∈ e.positives) :
+    C10Event g uni i (tryParseEvs g uni n r i) k x m.trk.position false true ∨
+    (x = 0 ∧ ∃ j, eoiAt g uni n r i = some j ∧ i.Adv j ∧ j.pos = m.trk.position ∧ j.atEnd = false) := by
+  have ht := tryParse_truthE g uni n r i
+  rw [h] at ht
+  rcases (ht k e hm).1 x hx with hj | hj
+  · exact Or.inl (evJ_c10Event hj)
+  · exact Or.inr hj
+
+/-- `C10_unexpected`: symmetric — negative polarity, and the call succeeded. -/
+theorem C10_unexpected (g : NodeGrammar) (uni : Uni) (n : Nat) (r : RuleId) (i : Inp) (m : M)
+    (h : tryParse g uni n r i = .fail m) (k : Option RuleId) (e : Tracked) (x : RuleId)
+    (hm : (k, e) ∈ m.trk.attempts) (hx : x ∈ e.negatives) :
+    C10Event g uni i (tryParseEvs g uni n r i) k x m.trk.position true false ∨
+    (x = 0 ∧ ∃ j, eoiAt g uni n r i = some j ∧ i.Adv j ∧ j.pos = m.trk.position ∧ j.atEnd = true) := by
+  have ht := tryParse_truthE g uni n r i
+  rw [h] at ht
+  rcases (ht k e hm).2 x hx with hj | hj
+  · exact Or.inl (evJ_c10Event hj)
+  · exact Or.inr hj
+
+/-- `try_check`: the same report (C03); the events are those of the parse path (same states). -/
+theorem C10_expected_check (g : NodeGrammar) (uni : Uni) (n : Nat) (r : RuleId) (i : Inp) (m : M)
+    (h : tryCheck g uni n r i = .fail m) (k : Option RuleId) (e : Tracked) (x : RuleId)
+    (hm : (k, e) ∈ m.trk.attempts) :
+    (x ∈ e.positives →
+      C10Event g uni i (tryParseEvs g uni n r i) k x m.trk.position false true ∨
+      (x = 0 ∧ ∃ j, eoiAt g uni n r i = some j ∧ i.Adv j ∧ j.pos = m.trk.position ∧ j.atEnd = false)) ∧
+    (x ∈ e.negatives →
+      C10Event g uni i (tryParseEvs g uni n r i) k x m.trk.position true false ∨
+      (x = 0 ∧ ∃ j, eoiAt g uni n r i = some j ∧ i.Adv j ∧ j.pos = m.trk.position ∧ j.atEnd = true)) := by
+  have ht := (tryParse_truthE g uni n r i).forget
+  rw [← C03_full_agree, h] at ht
+  constructor
+  · intro hx
+    rcases (ht k e hm).1 x hx with hj | hj
+    · exact Or.inl (evJ_c10Event hj)
+    · exact Or.inr hj
+  · intro hx
+    rcases (ht k e hm).2 x hx with hj | hj
+    · exact Or.inl (evJ_c10Event hj)
+    · exact Or.inr hj
+
+/-- `try_parse_partial`: no end-of-input attempt; the log is that of the rule's own run. -/
+theorem C10_expected_partial_entry (g : NodeGrammar) (uni : Uni) (n : Nat) (r : RuleId) (i : Inp) (m : M)
+    (h : tryParsePartial g uni n r i = .fail m) (k : Option RuleId) (e : Tracked) (x : RuleId)
+    (hm : (k, e) ∈ m.trk.attempts) :
+    (x ∈ e.positives →
+      C10Event g uni i (evs g uni n true (.ref r .one) i (M.init i)) k x m.trk.position false true) ∧
+    (x ∈ e.negatives →
+      C10Event g uni i (evs g uni n true (.ref r .one) i (M.init i)) k x m.trk.position true false) := by
+  have ht := parse_truthE g uni i (fun _ _ _ _ _ => False) n true (.ref r .one) i (M.init i) (Inp.Adv.refl i) []
+    (Tracker.TruthfulK.new i)
+  unfold tryParsePartial at h
+  rw [h, List.nil_append] at ht
+  constructor
+  · intro hx
+    rcases (ht k e hm).1 x hx with hj | hj
+    · exact evJ_c10Event hj
+    · exact hj.elim
+  · intro hx
+    rcases (ht k e hm).2 x hx with hj | hj
+    · exact evJ_c10Event hj
+    · exact hj.elim
+
+/-- `try_check_partial`. -/
+theorem C10_expected_check_partial_entry (g : NodeGrammar) (uni : Uni) (n : Nat) (r : RuleId) (i : Inp) (m : M)
+    (h : tryCheckPartial g uni n r i = .fail m) (k : Option RuleId) (e : Tracked) (x : RuleId)
+    (hm : (k, e) ∈ m.trk.attempts) :
+    (x ∈ e.positives →
+      C10Event g uni i (evs g uni n true (.ref r .one) i (M.init i)) k x m.trk.position false true) ∧
+    (x ∈ e.negatives →
+      C10Event g uni i (evs g uni n true (.ref r .one) i (M.init i)) k x m.trk.position true false) := by
+  have ht := (parse_truthE g uni i (fun _ _ _ _ _ => False) n true (.ref r .one) i (M.init i) (Inp.Adv.refl i) []
+    (Tracker.TruthfulK.new i)).forget
+  unfold tryCheckPartial at h
+  rw [← check_eq_parse_forget, h, List.nil_append] at ht
+  constructor
+  · intro hx
+    rcases (ht k e hm).1 x hx with hj | hj
+    · exact evJ_c10Event hj
+    · exact hj.elim
+  · intro hx
+    rcases (ht k e hm).2 x hx with hj | hj
+    · exact evJ_c10Event hj
+    · exact hj.elim
+
+/-- The flag `record_during_with` consults (`has_children` of the frame it pops) against the log: a run
+started on a tracker whose top frame is `(r, p, false)` leaves that frame on top, its flag set exactly
+when the run made a call of a framed rule — so "recorded" = "leaf" in the sense of `LeafEv`. -/
+theorem C10_leaf_flag (g : NodeGrammar) (uni : Uni) (n : Nat) (inh : Bool) (node : Node) (i : Inp) (m : M)
+    (r : RuleId) (p : Nat) (rest : List (RuleId × Nat × Bool)) (hs : m.trk.stack = (r, p, false) :: rest) :
+    RlOk (fun t => t.stack = (r, p, !(evs g uni n inh node i m).isEmpty) :: rest) (parse g uni n inh node i m) := by
+  refine (parse_stack g uni n inh node i m).mono (fun t ht => ?_)
+  rw [ht, hs]; simp [markIf]
+
+/-! ### rendering -/
+
+/-- A reported location (`InInput`) is a character boundary of the whole input text
+`pre0 ++ i.rest ++ i.after` (`pre0` = what precedes the cursor: `blen pre0 = i.pos`). -/
+theorem InInput.split {i : Inp} {p : Nat} (h : InInput i p) (pre0 : List Char) (hpre : blen pre0 = i.pos) :
+    ∃ a c, pre0 ++ i.rest ++ i.after = a ++ c ∧ p = blen a := by
+  obtain ⟨_, _, pre, ⟨suf, hp⟩, he⟩ := h
+  refine ⟨pre0 ++ pre, suf ++ i.after, ?_, ?_⟩
+  · rw [← hp]; simp [List.append_assoc]
+  · rw [Text.blen_append, hpre, he]
+
+/-- Rendering a report whose location is in the input: `collect_to_message` and `collect` do not
+panic; the message is the text of the line up to the location, `^---`, then the blocks; the error's
+line/column are `1 +` the LFs before the location and `1 +` the characters since the last of them. -/
+theorem C10_render (ruleName : RuleId → List Char) (i : Inp) (pre0 : List Char) (hpre : blen pre0 = i.pos)
+    (t : Tracker) (h : InInput i t.position) :
+    ∃ a c, pre0 ++ i.rest ++ i.after = a ++ c ∧ t.position = blen a ∧
+      Message.collectToMessage ruleName (pre0 ++ i.rest ++ i.after) t =
+        .ok (Text.afterLastLF a ++ "^---".toList ++ Message.body ruleName (1 + a.count '\n') t) ∧
+      Message.collect ruleName (pre0 ++ i.rest ++ i.after) t =
+        .ok (Text.afterLastLF a ++ "^---".toList ++ Message.body ruleName (1 + a.count '\n') t,
+          (1 + a.count '\n', 1 + (Text.afterLastLF a).length)) := by
+  obtain ⟨a, c, hs, hp⟩ := h.split pre0 hpre
+  refine ⟨a, c, hs, hp, ?_, ?_⟩
+  · rw [hs]; exact Message.collectToMessage_of_split ruleName a c t hp
+  · rw [hs]; exact Message.collect_of_split ruleName a c t hp
+
+/-- "Rendering the error never panics": for the report of a failing run of any of the four entry
+points on the input `pre0 ++ i.rest ++ i.after`. -/
+theorem C10_render_no_panic (g : NodeGrammar) (uni : Uni) (n : Nat) (r : RuleId) (i : Inp) (m : M)
+    (ruleName : RuleId → List Char) (pre0 : List Char) (hpre : blen pre0 = i.pos)
+    (h : tryParse g uni n r i = .fail m ∨ tryCheck g uni n r i = .fail m ∨
+      tryParsePartial g uni n r i = .fail m ∨ tryCheckPartial g uni n r i = .fail m) :
+    Message.collectToMessage ruleName (pre0 ++ i.rest ++ i.after) m.trk ≠ .panic ∧
+    Message.collect ruleName (pre0 ++ i.rest ++ i.after) m.trk ≠ .panic := by
+  have hin : InInput i m.trk.position := by
+    rcases h with h | h | h | h
+    · exact C10_bounds g uni n r i m h
+    · exact C10_bounds_check g uni n r i m h
+    · exact C10_bounds_partial_entry g uni n r i m h
+    · exact C10_bounds_check_partial_entry g uni n r i m h
+  obtain ⟨a, c, _, _, h1, h2⟩ := C10_render ruleName i pre0 hpre m.trk hin
+  rw [h1, h2]
+  exact ⟨by nofun, by nofun⟩
+
+/-- The hypothesis is needed: off a character boundary `collect_to_message` panics (in `line_col`). -/
+theorem C10_render_needs_boundary :
+    Message.collectToMessage (fun _ => []) ['é', 'q'] { position := 1 } = .panic := by decide
+
 /-! ### deterministic -/
 
 /-- The outcome (verdict, cursor, stack, tracker — hence the report — and value) does not depend on
@@ -433,6 +627,56 @@ example : (({ position := 2, attempts := [(none, { positives := [7] })] } : Trac
 example : (tryParse c10Grammar c10Uni 20 1 ⟨0, 0, ['é', 'q'], []⟩).c10Kind = 1 ∧
     (tryParse c10Grammar c10Uni 9 1 ⟨0, 0, ['é', 'q'], []⟩).c10Kind = 1 := by
   constructor <;> decide
+
+/-- The event log of the run on "éq": the calls of `a` at 0, of `b` at 2 (positive), of `c` at 2
+(negative, inside `!c`), with the tracker's rule stack at entry (`a`'s frame, flag set by `b`). -/
+example : (tryParseEvs c10Grammar c10Uni 20 1 ⟨0, 0, ['é', 'q'], []⟩).map
+      (fun ev => (ev.r, ev.i.pos, ev.m.trk.positive, ev.inh)) =
+    [(1, 0, true, true), (2, 2, true, true), (3, 2, false, true)] := by decide
+example : (tryParseEvs c10Grammar c10Uni 20 1 ⟨0, 0, ['é', 'q'], []⟩).map (fun ev => (ev.m.stk, ev.m.trk.stack)) =
+    [([], []), ([], [(1, 0, false)]), ([], [(1, 0, true)])] := by decide
+
+/-- The events `C10_expected` / `C10_unexpected` promise for that report (`b` expected, `c`
+unexpected, both under `a`): in the log, leaf, key `some 1`, verdicts failed / matched. -/
+example : ∃ ev ∈ tryParseEvs c10Grammar c10Uni 20 1 ⟨0, 0, ['é', 'q'], []⟩,
+    ev.r = 2 ∧ ev.i.pos = 2 ∧ ev.m.trk.positive = true ∧ ev.m.trk.upper 2 = some 1 ∧
+    evs c10Grammar c10Uni (ev.n - 1) (ev.f.eval ev.inh) (.str ['y']) ev.i
+      { ev.m with trk := ev.m.trk.enter ev.r ev.i.pos } = [] ∧
+    (parse c10Grammar c10Uni ev.n ev.inh (.ref ev.r ev.f) ev.i ev.m).c10Kind = 1 := by decide
+example : ∃ ev ∈ tryParseEvs c10Grammar c10Uni 20 1 ⟨0, 0, ['é', 'q'], []⟩,
+    ev.r = 3 ∧ ev.i.pos = 2 ∧ ev.m.trk.positive = false ∧ ev.m.trk.upper 2 = some 1 ∧
+    (parse c10Grammar c10Uni ev.n ev.inh (.ref ev.r ev.f) ev.i ev.m).c10Kind = 2 := by decide
+
+/-- "éyé": the EOI attempt is made at the cursor standing at 3, not at the end. -/
+example : (eoiAt c10Grammar c10Uni 20 1 ⟨0, 0, ['é', 'y', 'é'], []⟩).map (fun j => (j.pos, j.atEnd)) =
+    some (3, false) := by decide
+
+/-- A non-leaf attempt is not recorded: `a` fails on "éq" but only `b` / `c` are listed (above), and
+the flag of `a`'s frame is set by its children (`C10_leaf_flag`). -/
+example : (evs c10Grammar c10Uni 19 true (.str ['é']) ⟨0, 0, ['é', 'q'], []⟩ (M.init ⟨0, 0, ['é', 'q'], []⟩)).isEmpty = true ∧
+    (evs c10Grammar c10Uni 19 true (.ref 2 .inh) ⟨0, 2, ['q'], []⟩ (M.init ⟨0, 2, ['q'], []⟩)).isEmpty = false := by
+  decide
+
+def c10Names : RuleId → List Char
+  | 0 => ['E', 'O', 'I']
+  | 1 => ['a']
+  | 2 => ['b']
+  | 3 => ['c']
+  | _ => ['?']
+
+/-- The rendered report of "éq" (`C10_render`): line 1, column 2 (characters, not bytes), first line
+`é^---`. -/
+example : (tryParse c10Grammar c10Uni 20 1 ⟨0, 0, ['é', 'q'], []⟩).c10FailTrk?.map
+      (Message.collect c10Names ['é', 'q']) =
+    some (.ok ("é^---\n    Unexpected [c], expected [b], by a.".toList, (1, 2))) := by decide
+
+set_option maxRecDepth 8192 in
+/-- A report on the second line, with a special error and no rule: key order, `sort`/`dedup`. -/
+example : Message.collect c10Names ['x', '\r', '\n', 'é', 'z']
+      { position := 5, attempts := [(some 2, { positives := [3, 1, 3], specials := [.emptyStack] }),
+                                    (none, { negatives := [0], specials := [.sliceOutOfBound (-1) (some 2)] })] } =
+    .ok ("é^---\n    Unexpected [EOI].\n    Peek slice -1..2 out of bound.\n    Expected [a, c], by b.\n    Nothing to pop or drop. (By b)".toList,
+      (2, 2)) := by decide
 
 /-- The proviso of `C10_monotone_full` is needed for a hand-written skip type that can fail: the
 prefix parse ends at 1, the trailing skip fails, the report stays at 0. -/
